@@ -195,7 +195,7 @@ func runCase(c Case) (evid.Result, error) {
 			}
 		}()
 	}
-	var searches, fetched atomic.Int64
+	var searches, fetched, byIDFetches atomic.Int64
 	for r := range c.Readers {
 		rwg.Add(1)
 		go func() {
@@ -244,6 +244,30 @@ func runCase(c Case) (evid.Result, error) {
 						}
 					}
 					fetched.Add(int64(len(ids)))
+				}
+				// fetch by id, as the Fetch API allows for any id: documents whose bulk is being
+				// written or indexed right now (not necessarily listed by a search yet).  Each
+				// comes back with its bytes or not at all; the request must not fail.
+				var direct []model.ID
+				for k := 0; k < 8 && len(c.Docs) > 0; k++ {
+					di := (i*7 + k*13 + r) % len(c.Docs)
+					if state[di].Load() >= 1 {
+						direct = append(direct, c.Docs[di].ID)
+					}
+				}
+				if len(direct) > 0 {
+					docs, err := st.Fetch(harness.ToSeqIDs(direct))
+					if err != nil {
+						fe.set(evid.Failf("fetch-error:by-id-during-ingest", "reader %d: fetch of %d ids whose bulks are in flight or acknowledged: %v", r, len(direct), err))
+						return
+					}
+					for j, id := range direct {
+						if len(docs[j]) != 0 && !model.EqualBytes(docs[j], byID[id].Body) {
+							fe.set(evid.Failf("fetch-differs", "reader %d: id %v fetched by id during ingest as %d bytes %.40q, want %d bytes %.40q", r, id, len(docs[j]), docs[j], len(byID[id].Body), byID[id].Body))
+							return
+						}
+					}
+					byIDFetches.Add(1)
 				}
 			}
 		}()
@@ -324,6 +348,9 @@ func runCase(c Case) (evid.Result, error) {
 		res.Labels = append(res.Labels, "rotations>=20")
 	case nfr >= 4:
 		res.Labels = append(res.Labels, "rotations>=3")
+	}
+	if byIDFetches.Load() > 0 {
+		res.Labels = append(res.Labels, "fetched-by-id-during-ingest")
 	}
 	if fetched.Load() > 0 {
 		res.Labels = append(res.Labels, "fetched-in-flight")
